@@ -46,9 +46,11 @@ def v_files():
     return fs
 
 
-def gate():
+def gate(dirs=None):
     hits = []
     for f in v_files():
+        if dirs is not None and f.parts[0] not in dirs:
+            continue
         src = strip_comments((COQ / f).read_text())
         for m in FORBIDDEN.finditer(src):
             line = src.count("\n", 0, m.start()) + 1
@@ -141,7 +143,7 @@ def build(pid=None, extra_dirs=(), all_props=False):
         info, errs = regenerate(None if all_props else [pid])
         b.generated = info
         fs = write_project()
-        b.gate_hits = gate()
+        b.gate_hits = gate(None if all_props else ["Lib", "Generated", pid] + list(extra_dirs))
         if all_props:
             targets = [str(f)[:-2] + ".vo" for f in fs]
         else:
